@@ -510,6 +510,10 @@ pub fn prflx_priority_case(run: &mut Run, rt: &tokio::runtime::Runtime, controll
             if theirs != ours { run.fail("codec:pair-order:agents-compute-different-priority-for-the-same-pair:peer-reflexive", &case, &format!("{theirs} vs {ours}")); }
         }
     }
+    // the same candidate signalled afterwards (trickle / late answer) replaces the learnt entry: one candidate per address
+    t.add_remote_candidate(IceCandidate::host(src, 1));
+    let same: Vec<_> = t.remote_candidates().into_iter().filter(|c| c.address == src && (c.transport == "tcp") == tcp).collect();
+    if !tcp && (same.len() != 1 || same[0].typ != IceCandidateType::Host) { run.fail("codec:pair-priority:signalled-candidate-does-not-supersede-the-learnt-peer-reflexive-entry", &case, &format!("{:?}", same.iter().map(|c| (c.typ, c.priority)).collect::<Vec<_>>())); }
     run.count("agent_prflx_priority_cases");
     t.stop();
 }
